@@ -174,6 +174,49 @@ def reduce_rule(chk, fx, rid):
                          'drop' if i == 0 else 'keep out', 'weaker (super-predicate)' if mode == 'and' else 'stronger (sub-predicate)'), CMP, m.get('l'))
 
 
+def widen_rule(chk, fx, rid):
+    """a positive answer of `lhs :> rhs` may be derived from a *wider rhs* (lhs :> widen(rhs) implies lhs :> rhs), never from a wider lhs"""
+    chk.rule(rid, 'no arm of Context::structural_supertype_of answers `true` because a widened copy of the super side (`l.derefine()`: refinements replaced by their base types) is a '
+                  'supertype of the sub side: `{1} or Str` widened is `Nat or Str`, which contains the 2 of `{1, 2}`')
+    f = fx.fn(COMPARE, 'Context::structural_supertype_of')
+    ms = [n for n in T.walk(f['body']) if n.get('k') == 'Match' and n.get('src') == 'Normal']
+    if not chk.need(ms, 'structural_supertype_of: no match'):
+        return
+    m = max(ms, key=lambda n: len(n['arms']))
+    nwid = 0
+    for arm in m['arms']:
+        p = arm['pat']
+        first = p['p'][0] if p.get('k') == 'PTuple' and p.get('p') else None
+        super_names = {'lhs'} | (set(T.pat_bindings(first)) if first is not None else set())
+        widened = {}
+        for n in T.walk(arm['b']):
+            if n.get('k') == 'Let' and n.get('init') is not None:
+                init = T.peel(n['init'])
+                if init.get('k') == 'MCall' and init['n'] == 'derefine' and T.peel(init['r']).get('k') == 'Local' and T.peel(init['r'])['n'] in super_names:
+                    for b in T.walk(n['pat']):
+                        if b.get('k') == 'Bind':
+                            widened[b['id']] = n
+        if not widened:
+            continue
+        for n in T.walk(arm['b']):
+            if n.get('k') != 'If':
+                continue
+            uses = False
+            for c in T.calls(n['c']):
+                if c.get('k') == 'MCall' and c['n'] in ('supertype_of', 'structural_supertype_of') and c['a'] and any(x.get('k') == 'Local' and x.get('id') in widened for x in T.walk(c['a'][0])):
+                    uses = True
+                if c.get('k') == 'MCall' and c['n'] in ('subtype_of',) and len(c['a']) > 1 and any(x.get('k') == 'Local' and x.get('id') in widened for x in T.walk(c['a'][1])):
+                    uses = True
+            yes = any(r.get('k') == 'Ret' and T.show(T.peel(r.get('x') or {})) == 'true' for r in T.walk(n['t'])) or T.show(T.peel(n['t'])) in ('true', '{ true }')
+            if uses and yes:
+                nwid += 1
+                chk.bad(rid, 'Context::structural_supertype_of', 'widened-super:' + T.norm(T.show(p))[:40], 'the arm `%s` answers true when the derefined (widened) super side is a supertype '
+                        'of the sub side: `g(x: {1} or Str)` accepts a value of type {1, 2}, and a match over `x: {1, 2}` with the arms `1` and `(s: Str)` is accepted as exhaustive' %
+                        T.show(p)[:40], COMPARE, n.get('l'))
+    if nwid == 0:
+        chk.ok(rid, 'no-widened-super', sample='no positive answer is derived from lhs.derefine()')
+
+
 def union_rule(chk, fx):
     import itertools
     chk.rule('C06-union', 'subtyping of unions is a preorder: the three union arms of Context::structural_supertype_of — (Or, Or), (Or, t) and (t, Or) — are read as quantifier formulas '
@@ -446,6 +489,7 @@ def run(chk):
     from sa.kinds import arity
     arity.rule(chk, fx, 'C06-arity', ('refl',))
     reduce_rule(chk, fx, 'C06-reduce')
+    widen_rule(chk, fx, 'C06-widen')
     return ('The arms of Context::cheap_supertype_of are evaluated in order (resolved variant patterns, guards through the variant set of '
             'Type::is_mono_value_class) on every ordered pair of the six numeric classes and on Obj/Never against every built-in unit type. '
             'Decides the tower/top/bottom clauses only; reflexivity/transitivity over structural types are not decided.'), {'exhaustive': True}
